@@ -8,7 +8,9 @@
 
 use crate::exact::{Fp, Rat, P};
 use crate::util::*;
-use easy_ml::interop::TensorRefMatrix;
+use easy_ml::interop::{MatrixRefTensor, TensorRefMatrix};
+use easy_ml::matrices::views::{MatrixMut, MatrixRange, MatrixRef, MatrixReverse, MatrixView, Reverse};
+use easy_ml::tensors::views::TensorMut;
 use easy_ml::linear_algebra;
 use easy_ml::matrices::Matrix;
 use easy_ml::numeric::{Numeric, NumericRef};
@@ -286,9 +288,149 @@ where
             let transposed = base.transpose_view([b, a]); // shape [(a, r+1), (b, c)]
             op.call(transposed.mask([(a, kr..kr + 1)]).expect("mask"))
         }
+        // ---- entry-point surface: every wrapper / forwarder through which an input can reach
+        //      determinant / inverse (sources prefixed `m_` are matrix backed and go through
+        //      `TensorRefMatrix`, `t_` are tensor backed) ----
+        "m_owned" => op.call(TensorView::from(TensorRefMatrix::with_names(l.matrix(), [a, b]).expect("names"))),
+        "m_mut" => {
+            let mut m = l.matrix();
+            op.call(TensorView::from(TensorRefMatrix::with_names(&mut m, [a, b]).expect("names")))
+        }
+        "m_box" => op.call(TensorView::from(TensorRefMatrix::with_names(Box::new(l.matrix()), [a, b]).expect("names"))),
+        "m_box_ref" => {
+            let m = l.matrix();
+            op.call(TensorView::from(TensorRefMatrix::with_names(Box::new(&m), [a, b]).expect("names")))
+        }
+        "m_ref_ref" => {
+            let m = l.matrix();
+            let r1 = &m;
+            op.call(TensorView::from(TensorRefMatrix::with_names(&r1, [a, b]).expect("names")))
+        }
+        "m_dyn_ref" => {
+            let boxed: Box<dyn MatrixRef<T>> = Box::new(l.matrix());
+            op.call(TensorView::from(TensorRefMatrix::with_names(boxed, [a, b]).expect("names")))
+        }
+        "m_dyn_mut" => {
+            let boxed: Box<dyn MatrixMut<T>> = Box::new(l.matrix());
+            op.call(TensorView::from(TensorRefMatrix::with_names(boxed, [a, b]).expect("names")))
+        }
+        "m_ref_dyn_ref" => {
+            let boxed: Box<dyn MatrixRef<T>> = Box::new(l.matrix());
+            op.call(TensorView::from(TensorRefMatrix::with_names(&boxed, [a, b]).expect("names")))
+        }
+        "m_box_dyn_ref" => {
+            let boxed: Box<dyn MatrixRef<T>> = Box::new(l.matrix());
+            op.call(TensorView::from(TensorRefMatrix::with_names(Box::new(boxed), [a, b]).expect("names")))
+        }
+        "m_mut_dyn_mut" => {
+            let mut boxed: Box<dyn MatrixMut<T>> = Box::new(l.matrix());
+            op.call(TensorView::from(TensorRefMatrix::with_names(&mut boxed, [a, b]).expect("names")))
+        }
+        "m_dyn_ref_range" | "m_range" => {
+            // the logical matrix embedded at offset (1, 2) in a larger one, shown by a MatrixRange
+            let (or, oc) = (1, 2);
+            let mut junk = 0;
+            let big = Matrix::from_fn((r + 2, c + 3), |(i, j)| {
+                if i >= or && i < or + r && j >= oc && j < oc + c {
+                    l.at(i - or, j - oc)
+                } else {
+                    junk += 1;
+                    T::junk(junk)
+                }
+            });
+            let range = MatrixRange::from(big, or..or + r, oc..oc + c);
+            if src == "m_range" {
+                op.call(TensorView::from(TensorRefMatrix::with_names(range, [a, b]).expect("names")))
+            } else {
+                let boxed: Box<dyn MatrixRef<T>> = Box::new(range);
+                op.call(TensorView::from(TensorRefMatrix::with_names(boxed, [a, b]).expect("names")))
+            }
+        }
+        "m_reverse" => {
+            let mut data = Vec::with_capacity(r * c);
+            for i in (0..r).rev() {
+                for j in (0..c).rev() {
+                    data.push(l.at(i, j));
+                }
+            }
+            let base = Matrix::from_flat_row_major((r, c), data);
+            let rev = MatrixReverse::from(base, Reverse { rows: true, columns: true });
+            op.call(TensorView::from(TensorRefMatrix::with_names(rev, [a, b]).expect("names")))
+        }
+        "m_view_source" => {
+            let view = MatrixView::from(l.matrix());
+            op.call(TensorView::from(TensorRefMatrix::with_names(view.source_ref(), [a, b]).expect("names")))
+        }
+        "m_rowcol" => {
+            // `TensorRefMatrix::from`: the fixed names "row" / "column" (only generated with them)
+            let m = l.matrix();
+            op.call(TensorView::from(TensorRefMatrix::from(&m).expect("at least 1x1")))
+        }
+        "m_tensor_round_trip" => {
+            // Tensor → MatrixRefTensor → TensorRefMatrix → TensorView
+            let t = l.tensor();
+            let as_matrix = MatrixRefTensor::from(&t);
+            op.call(TensorView::from(TensorRefMatrix::with_names(as_matrix, [a, b]).expect("names")))
+        }
+        "m_dyn_ref_tensor" => {
+            let as_matrix: Box<dyn MatrixRef<T>> = Box::new(MatrixRefTensor::from(l.tensor()));
+            op.call(TensorView::from(TensorRefMatrix::with_names(as_matrix, [a, b]).expect("names")))
+        }
+        "t_box" => op.call(TensorView::from(Box::new(l.tensor()))),
+        "t_box_ref" => {
+            let t = l.tensor();
+            op.call(TensorView::from(Box::new(&t)))
+        }
+        "t_ref_ref" => {
+            let t = l.tensor();
+            let r1 = &t;
+            op.call(TensorView::from(&r1))
+        }
+        "t_dyn_ref" => {
+            let boxed: Box<dyn TensorRef<T, 2>> = Box::new(l.tensor());
+            op.call(TensorView::from(boxed))
+        }
+        "t_dyn_mut" => {
+            let boxed: Box<dyn TensorMut<T, 2>> = Box::new(l.tensor());
+            op.call(TensorView::from(boxed))
+        }
+        "t_ref_dyn_ref" => {
+            let boxed: Box<dyn TensorRef<T, 2>> = Box::new(l.tensor());
+            op.call(TensorView::from(&boxed))
+        }
+        "t_mut_dyn_mut" => {
+            let mut boxed: Box<dyn TensorMut<T, 2>> = Box::new(l.tensor());
+            op.call(TensorView::from(&mut boxed))
+        }
+        "t_dyn_ref_matrix" => {
+            // a matrix behind TensorRefMatrix, erased to Box<dyn TensorRef>
+            let boxed: Box<dyn TensorRef<T, 2>> =
+                Box::new(TensorRefMatrix::with_names(l.matrix(), [a, b]).expect("names"));
+            op.call(TensorView::from(boxed))
+        }
+        "t_dyn_ref_matrix_dyn" => {
+            let inner: Box<dyn MatrixRef<T>> = Box::new(l.matrix());
+            let boxed: Box<dyn TensorRef<T, 2>> =
+                Box::new(TensorRefMatrix::with_names(inner, [a, b]).expect("names"));
+            op.call(TensorView::from(boxed))
+        }
         other => panic!("unknown source {}", other),
     }
 }
+
+/// the wrapper forms of the entry-point surface section
+const SURFACE_SOURCES: [&str; 27] = [
+    "m_owned", "matrix_wrapped", "m_mut", "m_box", "m_box_ref", "m_ref_ref", "m_dyn_ref", "m_dyn_mut",
+    "m_ref_dyn_ref", "m_box_dyn_ref", "m_mut_dyn_mut", "m_dyn_ref_range", "m_range", "m_reverse",
+    "m_view_source", "m_tensor_round_trip", "m_dyn_ref_tensor", "t_box", "t_box_ref", "t_ref_ref", "t_dyn_ref",
+    "t_dyn_mut", "t_ref_dyn_ref", "t_mut_dyn_mut", "t_dyn_ref_matrix", "t_dyn_ref_matrix_dyn", "tensor",
+];
+/// public routes to determinant / inverse that this workload does not drive (reported as #stat)
+const SURFACE_NOT_DRIVEN: [&str; 6] = [
+    "source.MatrixPart_and_MatrixQuadrants(C12)", "source.TensorStack_TensorChain_TensorExpansion_TensorIndex_higher_D(C02)",
+    "source.user_trait_object_Box_dyn_MatrixMutNoInteriorMutability(doc_example_only)",
+    "element_type.Record_and_Trace(C04_C05)", "element_type.unsigned_wrapping", "source.crate_private_MatrixMap",
+];
 
 const VIEW_SOURCES: [&str; 13] = [
     "tensor", "tensor_ref", "tensor_mut", "view_ref", "transposed", "reordered", "masked", "masked_owned",
@@ -1366,6 +1508,64 @@ fn special_float_cases(e: &mut Emit, thorough: bool) {
     }
 }
 
+/// Every way an input can reach `determinant*` / `inverse*` (the public functions are
+/// `linear_algebra::{determinant, determinant_tensor, inverse, inverse_tensor}`,
+/// `Matrix::{determinant, inverse}`, `Tensor::{determinant, inverse}`, `TensorView::{determinant,
+/// inverse}`; `MatrixView` has none) × every wrapper / forwarder form of the input, on square and
+/// non-square shapes: non-square is `none` through every route.
+fn surface_cases(e: &mut Emit) {
+    for route in SURFACE_NOT_DRIVEN {
+        e.g.count(&format!("surface.not_driven.{}", route));
+    }
+    let shapes: [(usize, usize); 12] =
+        [(1, 1), (2, 2), (3, 3), (4, 4), (2, 3), (3, 2), (1, 2), (2, 1), (1, 4), (4, 1), (3, 4), (4, 3)];
+    for (r, c) in shapes {
+        let variants = if r == c { 2 } else { 1 };
+        for variant in 0..variants {
+            let ints: Vec<i128> = if r == c {
+                if variant == 0 { dominant_int(e.g, r) } else if r == 1 { vec![0] } else { low_rank_int(e.g, r, r - 1, 3) }
+            } else {
+                (0..r * c).map(|_| { let v = small_int(e.g, 7); if v == 0 { 1 } else { v } }).collect()
+            };
+            let entries: Vec<String> = ints.iter().map(|x| x.to_string()).collect();
+            for (k, ty) in ["rat", "fp"].iter().enumerate() {
+                let (a, b) = e.names();
+                e.g.op(format!("@ {} {}:{},{}:{} {}", ty, a, r, b, c, entries.join(",")));
+                e.g.count(&format!("type.{}", ty));
+                e.g.count(&format!("shape.{}x{}", r, c));
+                e.g.count(if r == c { "kind.surface_square" } else { "kind.surface_nonsquare" });
+                for (i, src) in SURFACE_SOURCES.iter().enumerate() {
+                    let call = VIEW_CALLS[(i + k + variant + r + c) % VIEW_CALLS.len()];
+                    for op in ["tdet", "tinv"] {
+                        e.g.count(&format!("surface.driven.{}", src));
+                        e.g.op(format!("{} via={}/{}", op, src, call));
+                    }
+                }
+                // the Matrix functions (they take `&Matrix` only) and the bare-Tensor forms
+                for via in ["flat/fn", "flat/method"] {
+                    e.g.count("surface.driven.Matrix");
+                    e.g.op(format!("mdet via={}", via));
+                    e.g.op(format!("minv via={}", via));
+                }
+                for via in TENSOR_DIRECT {
+                    e.g.count("surface.driven.Tensor_direct");
+                    e.g.op(format!("tdet via={}", via));
+                    e.g.op(format!("tinv via={}", via));
+                }
+            }
+            // `TensorRefMatrix::from`: fixed names "row", "column"
+            e.forced_names = Some(("row", "column"));
+            let (a, b) = e.names();
+            e.g.op(format!("@ rat {}:{},{}:{} {}", a, r, b, c, entries.join(",")));
+            e.g.count("surface.driven.m_rowcol");
+            for call in VIEW_CALLS {
+                e.g.op(format!("tdet via=m_rowcol/{}", call));
+                e.g.op(format!("tinv via=m_rowcol/{}", call));
+            }
+        }
+    }
+}
+
 fn consumer_cases(e: &mut Emit, max_n: usize) {
     for n in 1..=max_n {
         for round in 0..6 {
@@ -1598,6 +1798,8 @@ pub fn gen(g: &mut Gen) {
     //     matrix, elementwise operations, operators with a plain tensor, reshape, Display, owned
     //     iteration …): each must show what the Matrix entry point / the model's buffer shows ---
     consumer_cases(&mut e, max_n.min(5));
+    // --- entry-point surface: every wrapper form × every public determinant / inverse function ---
+    surface_cases(&mut e);
     // --- adversarial dimension names on the tensor entry points ---
     name_cases(&mut e);
 
